@@ -221,4 +221,27 @@ inline ApiCase gen_vecop(const MODULE* mod, const VecOp& op, const VecShape& s0,
   return c;
 }
 
+// bulk layer: outputs of 16 MiB and more (N x limbs x 8 bytes), strides N+1 / N / N+4, out of place and res == a - a path chosen by the
+// total amount of data (non-temporal stores, blocking, prefetch distances) must still honour "no alignment beyond 8 bytes" and the
+// size / stride semantics.  shape 0: 33 limbs at N = 65536, 1: 160 limbs at N = 16384, 2: 2049 limbs at N = 1024
+inline void bulk_vec_cases(int opi, int mtype, int shape, const std::function<void(ApiCase&)>& fn) {
+  const VecOp& op = VECOPS[opi];
+  static const uint64_t SH[3][2] = {{65536, 33}, {16384, 160}, {1024, 2049}};
+  const uint64_t N = SH[shape][0], L = SH[shape][1];
+  static const CpuCfg native = {"native", 1, 1};
+  MODULE* mod = get_module(N, mtype == 0 ? FFT64 : NTT120, native);
+  const char* mt = mtype == 0 ? "fft64" : "ntt120";
+  for (uint64_t sl : {N + 1, N, N + 4})
+    for (int al = 0; al < 2; ++al) {
+      VecShape s; s.N = N; s.rs = L; s.as = L - 1; s.bs = L + 1; s.rsl = s.asl = s.bsl = sl; s.p = op.model == 'r' ? 5 : 3; s.res_extra = 0;
+      s.alias = al ? AL_RES_A : AL_NONE;
+      if (al && op.nin < 1) continue;
+      VecShape sc = canon_shape(op, s);
+      if (al && !alias_ok(op, sc)) continue;
+      ApiCase c = gen_vecop(mod, op, sc, mt, "native");
+      c.id += "|bulk";
+      fn(c);
+    }
+}
+
 }  // namespace vf
